@@ -106,7 +106,11 @@ func wirePass(c *vh.Ctx) {
 				fn |= 1
 				var sb [4]byte
 				binary.BigEndian.PutUint32(sb[:], r.Uint32())
-				prim, _ := hsms.NewDataMessage(stream, fn, true, sid, sb, fr.RandItem(r, 1))
+				prim, perr := hsms.NewDataMessage(stream, fn, true, sid, sb, fr.RandItem(r, 1))
+				if perr != nil {
+					c.Fail("wire: cannot build a W-bit primary with an odd function", fmt.Sprint(fn))
+					continue
+				}
 				replyWith <- it
 				sendErr = peer.Write(prim.ToBytes())
 				fn++
